@@ -20,7 +20,7 @@ def stateless (f : Line → Verdict) : Stepper := ⟨Unit, (), fun _ l => ((), f
 def stepperFor (prop : String) : Option Stepper :=
   match prop with
   | "C02" => some ⟨DriverC02.St, {}, DriverC02.step⟩
-  | "C03" => some (stateless DriverC03.step)
+  | "C03" => some ⟨DriverC03.SSt, {}, DriverC03.sstep⟩
   | "C04" => some ⟨DriverC04.St, {}, DriverC04.step⟩
   | "C05" => some ⟨DriverC05.St, {}, DriverC05.step⟩
   | "C08" => some ⟨DriverC08.St, {}, DriverC08.step⟩
